@@ -46,6 +46,9 @@ ClausesFor(ds) ==
     \cup { Cl("keep", <<n>>) : n \in MeasOf(ds) \cup AttrsOf(ds) }
     \cup { Cl("drop", <<n>>) : n \in { m \in MeasOf(ds) \cup AttrsOf(ds) : Cardinality(AllNames(ds)) > 1 } }
     \cup { Cl("rename", <<<<n, "Ren_1">>>>) : n \in { m \in MeasOf(ds) : Fresh(ds, "Ren_1") } }
+    \* simultaneous renames whose targets are names renamed away by the same clause (swap, shift)
+    \cup { Cl("rename", <<<<"Me_1", "Me_2">>, <<"Me_2", "Me_1">>>>) : x \in IF {"Me_1", "Me_2"} \subseteq MeasOf(ds) THEN {1} ELSE {} }
+    \cup { Cl("rename", <<<<"Me_1", "Me_2">>, <<"Me_2", "Me_3">>>>) : x \in IF {"Me_1", "Me_2"} \subseteq MeasOf(ds) /\ Fresh(ds, "Me_3") THEN {1} ELSE {} }
     \cup { Cl("rename", <<<<"Id_1", "Id_9">>>>) : x \in IF "Id_1" \in IdsOf(ds) /\ Fresh(ds, "Id_9") THEN {1} ELSE {} }
     \cup { Cl("sub", <<<<"Id_2", S(<<97>>)>>>>) : x \in IF "Id_2" \in IdsOf(ds) /\ Cardinality(IdsOf(ds)) > 1 THEN {1} ELSE {} }
     \cup { Cl("sub", <<<<"Id_1", I(2)>>>>) : x \in IF "Id_1" \in IdsOf(ds) /\ Cardinality(IdsOf(ds)) > 1 THEN {1} ELSE {} }
